@@ -22,6 +22,9 @@ pub struct AnsiElementIterator<'a> {
 
     // Byte offset of most rightward byte processed so far
     pos: usize,
+
+    // Byte offset just after the most recent text byte.
+    text_end: usize,
 }
 
 #[derive(Default)]
@@ -67,6 +70,7 @@ impl<'a> AnsiElementIterator<'a> {
             text_length: 0,
             start: 0,
             pos: 0,
+            text_end: 0,
         }
     }
 
@@ -76,6 +80,9 @@ impl<'a> AnsiElementIterator<'a> {
         self.element = performer.element;
         self.text_length += performer.text_length;
         self.pos += 1;
+        if performer.text_length > 0 {
+            self.text_end = self.pos;
+        }
     }
 }
 
@@ -97,7 +104,10 @@ impl Iterator for AnsiElementIterator<'_> {
             // text, which must be emitted first.
             if self.text_length > 0 {
                 let start = self.start;
-                self.start += self.text_length;
+                // Not `start + text_length`: bytes of an aborted escape sequence (e.g. ESC CAN)
+                // are reported neither as text nor as an element; they are kept with the text
+                // so that element ranges stay contiguous and on char boundaries.
+                self.start = self.text_end;
                 self.text_length = 0;
                 self.element = Some(element);
                 return Some(Element::Text(start, self.start));
